@@ -327,10 +327,10 @@ def run_impl(kind, case, ctx):
         g = solver.solve(task, enum, timeout)
         try:
             p = next(g)
-            yielded.append(G.term_str(from_repo_program(p))); at_yield.append(solver._programs)
+            yielded.append(G.term_str(from_repo_program(p))); at_yield.append([solver._programs, float(solver._score)])
             for a in t["answers"]:
                 p = g.send(ANSWERS[a][0])
-                yielded.append(G.term_str(from_repo_program(p))); at_yield.append(solver._programs)
+                yielded.append(G.term_str(from_repo_program(p))); at_yield.append([solver._programs, float(solver._score)])
             status = "suspended"
             g.close()
         except StopIteration:
@@ -504,9 +504,9 @@ def check(case, M):
             if ob["_programs"] != m_progs:
                 failures.append({"kind": "corr", "what": "_programs counter differs from the model",
                                  "detail": f"{where}: impl {ob['_programs']} model {m_progs}"})
-            if ob["yielded"] == want["yields"] and ob["at_yield"] != [i + 1 for i in want["idxs"]]:
-                failures.append({"kind": "corr", "what": "_programs at a yield is not the rank of the yielded program",
-                                 "detail": f"{where}: impl {ob['at_yield']} expected {[i + 1 for i in want['idxs']]}"})
+            if ob["yielded"] == want["yields"] and ob["at_yield"] != [[i + 1, 1.0] for i in want["idxs"]]:
+                failures.append({"kind": "corr", "what": "(_programs, _score) at a yield is not (rank of the yielded program, 1)",
+                                 "detail": f"{where}: impl {ob['at_yield']} expected {[[i + 1, 1.0] for i in want['idxs']]}"})
             msc = None if m_score[0] == "none" else m_score[0] / m_score[1]
             if ob["score"] != msc:
                 failures.append({"kind": "corr", "what": "_score differs from the model",
